@@ -485,10 +485,18 @@ func Specials(prop, cls string) *hk.Result {
 			}
 			return &docHolder{M: doc}, doc2(), &struct{ M map[string]*string }{M: map[string]*string{"p": &ps2, "nilp": nil}}, &struct{ M map[string]docStr }{M: map[string]docStr{"n": "CANARYdocMN"}}
 		}
+		// exactly what encoding/json produces: nothing but map[string]interface{}, []interface{}, string, float64, bool, nil
+		mkJSON := func() interface{} {
+			var v map[string]interface{}
+			if err := json.Unmarshal([]byte(`{"users":[{"name":"CANARYdocJ1","tags":["CANARYdocJ2",null,["CANARYdocJ3"]]},"CANARYdocJ4"],"n":1.5,"ok":true,"none":null,"s":"CANARYdocJ5","m":{"k":"CANARYdocJ6"}}`), &v); err != nil {
+				panic(err)
+			}
+			return v
+		}
 		a, b, c, d := mkDoc()
 		ta, tb, tc, td := mkDoc()
-		ins, twins := []interface{}{a, b, c, d}, []interface{}{ta, tb, tc, td}
-		for i, name := range []string{"document in a struct field", "document as the payload", "map[string]*string", "map of a defined string type"} {
+		ins, twins := []interface{}{a, b, c, d, mkJSON()}, []interface{}{ta, tb, tc, td, mkJSON()}
+		for i, name := range []string{"document in a struct field", "document as the payload", "map[string]*string", "map of a defined string type", "json.Unmarshal result as the payload"} {
 			count()
 			var out *el.Event
 			var err error
